@@ -366,6 +366,218 @@ theorem no_index_error (pg : PG P) (hr : Reachable pg) :
     · cases h1
     · have := hrange q i hq; omega
 
+/-! ### the package's LOOKUP CALLERS (`Op.rows`): pipeline tools and quantification readers that look up
+the groups of the rows of a file -/
+
+/-- "a lookup by protein … returns exactly the group (or group position) that CURRENTLY contains that
+    protein" for the callers that look groups up for external rows (`update_fragpipe_psm_file`, the
+    `add_precursor_quants` / `update_precursor_quants_single` functions of quant/*.py,
+    `collect_peptide_scores_per_protein`, `FragpipeProteinAnnotationsColumns.append_columns`): a call
+    changes nothing in the collection and its answer is `callerAnswer` of the collection it was handed —
+    the step has no other input; a file without rows is answered without looking at the flag -/
+theorem lookup_callers_change_nothing (pg : PG P) (c : Caller) (rows : List (List P)) :
+    (step pg (.rows c rows)).1 = pg ∧
+    (step pg (.rows c rows)).2 = outOf .rows (callerAnswer c pg rows) ∧
+    callerAnswer c pg [] = .ok [] ∧
+    (Op.rows c rows).isMutator = false := ⟨rfl, rfl, rfl, rfl⟩
+
+/-- "after any sequence of additions, merges and clean-ups": a collection whose index has been rebuilt
+    since the last change IS the collection `init_from_list` builds from its current groups — whatever
+    history (from whatever constructor) produced it -/
+theorem collection_determined_by_contents (pg : PG P) (hr : Reachable pg) (hv : pg.valid = true) :
+    pg = ofList pg.groups := eq_ofList_of_valid pg (reachable_inv pg hr).1 hv
+
+/-- "never stale, never foreign": the answer of every lookup — single, multi-protein, and of every
+    lookup caller for every row — is a function of (current contents of the collection it is asked of,
+    queried proteins) only.  Two collections produced by ANY two histories (other constructors, other
+    operations, other lookups before, other collections alive) that hold the same groups and have been
+    re-indexed answer every operation identically, and as a freshly built collection does. -/
+theorem answers_depend_on_contents_only (pg₁ pg₂ : PG P) (h₁ : Reachable pg₁) (h₂ : Reachable pg₂)
+    (hv₁ : pg₁.valid = true) (hv₂ : pg₂.valid = true) (hg : pg₁.groups = pg₂.groups) :
+    (∀ c rows, callerAnswer c pg₁ rows = callerAnswer c pg₂ rows) ∧
+    (∀ c rows, callerAnswer c pg₁ rows = callerAnswer c (ofList pg₁.groups) rows) ∧
+    (∀ op : Op P, step pg₁ op = step pg₂ op) := by
+  have e1 := collection_determined_by_contents pg₁ h₁ hv₁
+  have e2 := collection_determined_by_contents pg₂ h₂ hv₂
+  have e : pg₁ = pg₂ := by
+    calc pg₁ = ofList pg₁.groups := e1
+      _ = ofList pg₂.groups := by rw [hg]
+      _ = pg₂ := e2.symm
+  refine ⟨fun c rows => by rw [e], fun c rows => ?_, fun op => by rw [e]⟩
+  exact congrArg (fun s => callerAnswer c s rows) e1
+
+/-- the same, spelled out over histories: what a lookup caller answers after `ops₁` on one collection and
+    after `ops₂` on another depends only on the groups the two histories left -/
+theorem caller_answer_history_independent (ops₁ ops₂ : List (Op P)) (pg₁ pg₂ : PG P)
+    (h₁ : Reachable pg₁) (h₂ : Reachable pg₂)
+    (hv₁ : (run pg₁ ops₁).valid = true) (hv₂ : (run pg₂ ops₂).valid = true)
+    (hg : (run pg₁ ops₁).groups = (run pg₂ ops₂).groups) (c : Caller) (rows : List (List P)) :
+    callerAnswer c (run pg₁ ops₁) rows = callerAnswer c (run pg₂ ops₂) rows :=
+  (answers_depend_on_contents_only _ _ (reachable_run ops₁ _ h₁) (reachable_run ops₂ _ h₂) hv₁ hv₂ hg).1 c rows
+
+/-- "… either fails loudly because the index has not been rebuilt since the last change": a lookup caller
+    that is handed a changed, not re-indexed collection and at least one row raises the invalid-index
+    error (it never answers from what it, or anybody, looked up before) -/
+theorem lookup_callers_stale_raise (pg : PG P) (hv : pg.valid = false) (c : Caller) (rows : List (List P))
+    (hne : rows ≠ []) :
+    callerAnswer c pg rows = .error .invalidIndex ∧ (step pg (.rows c rows)).2 = .err .invalidIndex := by
+  have h : callerAnswer c pg rows = .error .invalidIndex :=
+    mapRows_error_of_all _ _ rows hne (fun r _ => rowAnswer_stale c pg hv r)
+  exact ⟨h, by simp [step, h, outOf]⟩
+
+/-- on a re-indexed collection the callers answer row by row: every caller but the annotation column
+    answers for every row; a call fails only in `append_columns`, only with `[][0]` (IndexError), only
+    because some row has no protein in any group; an answer has one entry per row and each entry is the
+    row's own answer (no dependence on the other rows) -/
+theorem lookup_callers_answer_when_valid (pg : PG P) (hr : Reachable pg) (hv : pg.valid = true)
+    (c : Caller) (rows : List (List P)) :
+    (c ≠ .annotate → ∃ l, callerAnswer c pg rows = .ok l) ∧
+    (∀ e, callerAnswer c pg rows = .error e →
+      c = .annotate ∧ e = .indexError ∧ ∃ r ∈ rows, ∀ p ∈ r, ∀ g ∈ pg.groups, p ∉ g) ∧
+    (∀ l, callerAnswer c pg rows = .ok l → l.length = rows.length ∧
+      ∀ (t : Nat) (r : List P) (a : RowAns P), rows[t]? = some r → l[t]? = some a → rowAnswer c pg r = .ok a) := by
+  have hinv := (reachable_inv pg hr).1
+  have herr : ∀ e, callerAnswer c pg rows = .error e →
+      c = .annotate ∧ e = .indexError ∧ ∃ r ∈ rows, ∀ p ∈ r, ∀ g ∈ pg.groups, p ∉ g := by
+    intro e he
+    obtain ⟨r, hrm, hre⟩ := mapRows_error _ e rows he
+    obtain ⟨h1, h2, h3⟩ := rowAnswer_error c pg hinv hv r e hre
+    exact ⟨h1, h2, r, hrm, h3⟩
+  refine ⟨?_, herr, fun l hl => mapRows_ok _ rows l hl⟩
+  intro hc
+  cases h : callerAnswer c pg rows with
+  | ok l => exact ⟨l, rfl⟩
+  | error e => exact absurd (herr e h).1 hc
+
+/-- `update_fragpipe_psm_file`: "returns exactly the group … that currently contains that protein" — a
+    PSM row is written with the leader `a` only if `a` is a protein of the row and the first member of a
+    CURRENT group that holds a row protein and holds every row protein that is in any group (the group
+    is not stale, not foreign, and the row is not shared) -/
+theorem psm_row_sound (pg : PG P) (hr : Reachable pg) (r : List P) (a : P)
+    (h : psmRow pg r = .ok (.written a)) :
+    a ∈ r ∧ ∃ (i : Nat) (g : List P), pg.groups[i]? = some g ∧ g.head? = some a ∧ (∃ p ∈ r, p ∈ g) ∧
+      ∀ p ∈ r, (∃ g' ∈ pg.groups, p ∈ g') → p ∈ g := by
+  have hinv := (reachable_inv pg hr).1
+  have hv : pg.valid = true := by
+    cases hv : pg.valid with
+    | true => rfl
+    | false =>
+      have := rowAnswer_stale .psmUpdate pg hv r
+      simp only [rowAnswer] at this
+      rw [this] at h; cases h
+  obtain ⟨gs, hgs, h1 | h1 | ⟨x, a', t, hx, hxa, h1⟩⟩ := psmRow_cases pg hinv hv r
+  · rw [h1.2] at h; cases h
+  · rw [h1.2] at h; cases h
+  · rw [h1] at h
+    by_cases hmem : a' ∈ r
+    · simp only [hmem, if_true] at h
+      have : a' = a := by simpa using h
+      subst this
+      rw [hx] at hgs
+      obtain ⟨hxg, q, hq, _, hqx⟩ := getGroups_mem_spec pg hinv r [x] hgs x (by simp)
+      refine ⟨hmem, x.1, x.2, hxg, by simp [hxa], ⟨q, hq, hqx⟩, ?_⟩
+      intro p hp ⟨g', hg', hpg'⟩
+      obtain ⟨_, hspec⟩ := getGroups_ok pg r true [x] hgs
+      cases hl : pg.index.lookup p with
+      | none => exact absurd hpg' ((lookup_none_iff pg hinv hv p).mp hl g' hg')
+      | some j =>
+        obtain ⟨g'', hg'', hp''⟩ := lookup_some_spec pg hinv hv p j hl
+        have hin : (j, g'') ∈ [x] := (hspec j g'').mpr ⟨hg'', p, hp, hl⟩
+        have : (j, g'') = x := by simpa using hin
+        rw [← this]; exact hp''
+    · simp [hmem] at h
+
+/-- the quantification callers and `collect_peptide_scores_per_protein`: a row is attached to result
+    position `i` only if `i` is a position of the CURRENT collection whose group holds EVERY protein of
+    the row (a row with a protein in no group, or with proteins at two positions, is attached nowhere) -/
+theorem quant_row_sound (pg : PG P) (hr : Reachable pg) (r : List P) (i : Nat)
+    (h : quantRow pg r = .ok (.attached i)) :
+    r ≠ [] ∧ ∃ g, pg.groups[i]? = some g ∧ ∀ p ∈ r, p ∈ g := by
+  have hinv := (reachable_inv pg hr).1
+  obtain ⟨hv, hne, hall⟩ := quantRow_attached pg r i h
+  refine ⟨hne, ?_⟩
+  cases r with
+  | nil => exact absurd rfl hne
+  | cons p₀ t =>
+    obtain ⟨g, hg, _⟩ := lookup_some_spec pg hinv hv p₀ i (hall p₀ (by simp))
+    refine ⟨g, hg, fun p hp => ?_⟩
+    obtain ⟨g', hg', hp'⟩ := lookup_some_spec pg hinv hv p i (hall p hp)
+    rw [hg] at hg'
+    have : g = g' := by simpa using hg'
+    rw [this]; exact hp'
+
+/-- "A protein contained in no group is reported as missing and is never mapped to an existing group",
+    for rows: a row none of whose proteins is in a current group is dropped by `update_fragpipe_psm_file`,
+    attached nowhere by the quantification callers, and `append_columns` fails loudly on it -/
+theorem missing_rows_never_mapped (pg : PG P) (hr : Reachable pg) (hv : pg.valid = true) (r : List P)
+    (hm : ∀ p ∈ r, ∀ g ∈ pg.groups, p ∉ g) :
+    psmRow pg r = .ok .dropped ∧ quantRow pg r = .ok .dropped ∧ annotRow pg r = .error .indexError := by
+  have hinv := (reachable_inv pg hr).1
+  have hg := getGroups_of_missing pg hinv hv r hm
+  refine ⟨by simp [psmRow, hg, isMissingGroups], ?_, by simp [annotRow, hg]⟩
+  unfold quantRow
+  rw [getIdxs_total pg hv r]
+  simp [isMissing_of_missing pg hinv hv r hm]
+
+/-- `FragpipeProteinAnnotationsColumns.append_columns`: whichever of the returned groups Python's set order
+    puts first, the annotated leader is the first member of a CURRENT group that holds a protein of the row -/
+theorem annot_row_sound (pg : PG P) (hr : Reachable pg) (r : List P) (l : List P)
+    (h : annotRow pg r = .ok (.leaders l)) :
+    l ≠ [] ∧ ∀ a ∈ l, ∃ g ∈ pg.groups, g.head? = some a ∧ ∃ p ∈ r, p ∈ g := by
+  have hinv := (reachable_inv pg hr).1
+  have hv : pg.valid = true := by
+    cases hv : pg.valid with
+    | true => rfl
+    | false =>
+      have := rowAnswer_stale .annotate pg hv r
+      simp only [rowAnswer] at this
+      rw [this] at h; cases h
+  obtain ⟨gs, hgs, ⟨_, h1⟩ | ⟨hne, h1⟩⟩ := annotRow_cases pg hv r
+  · rw [h1] at h; cases h
+  · rw [h1] at h
+    have hl : l = gs.filterMap (fun x => x.2.head?) := by simpa using h.symm
+    have hspec := getGroups_mem_spec pg hinv r gs hgs
+    constructor
+    · cases gs with
+      | nil => exact absurd rfl hne
+      | cons x t =>
+        obtain ⟨_, q, _, _, hqx⟩ := hspec x (by simp)
+        cases hx : x.2 with
+        | nil => rw [hx] at hqx; simp at hqx
+        | cons a t' => rw [hl]; simp [hx]
+    · intro a ha
+      rw [hl, List.mem_filterMap] at ha
+      obtain ⟨x, hx, hxa⟩ := ha
+      obtain ⟨hxg, q, hq, _, hqx⟩ := hspec x hx
+      exact ⟨x.2, List.mem_of_getElem? hxg, hxa, q, hq, hqx⟩
+
+/-- "exactly the group": when no protein sits at two positions the callers lose nothing — a row all of
+    whose proteins are in the group at position `i` is attached to `i`; a PSM row that hits the group at
+    position `i` and no other is written with that group's leader exactly when the leader is a row protein -/
+theorem rows_complete_of_disjoint (pg : PG P) (hr : Reachable pg) (hv : pg.valid = true)
+    (hd : DisjointPos pg.groups) (r : List P) (i : Nat) (g : List P) (hg : pg.groups[i]? = some g) :
+    (r ≠ [] → (∀ p ∈ r, p ∈ g) → quantRow pg r = .ok (.attached i)) ∧
+    ((∃ p ∈ r, p ∈ g) → (∀ p ∈ r, (∃ g' ∈ pg.groups, p ∈ g') → p ∈ g) → ∀ a, g.head? = some a →
+      psmRow pg r = .ok (if a ∈ r then .written a else .dropped)) :=
+  have hinv := (reachable_inv pg hr).1
+  ⟨fun hne hall => quantRow_of_all_in pg hinv hv hd r i g hg hne hall,
+   fun hex hall a ha => psmRow_of_one_group pg hinv hv hd r i g hg hex hall a ha⟩
+
+/-- "never … foreign groups" with SEVERAL collections alive in one process: a call on collection `k` is the
+    step of that collection alone — its answer is computed from `states[k]` and nothing else, and every
+    other collection is left exactly as it was -/
+theorem stepAt_local (states : List (PG P)) (k : Nat) (op : Op P) (pg : PG P) (hk : states[k]? = some pg) :
+    ∃ st, stepAt states k op = some (st, (step pg op).2) ∧ st[k]? = some (step pg op).1 ∧
+      st.length = states.length ∧ ∀ j, j ≠ k → st[j]? = states[j]? := by
+  have hlt : k < states.length := by
+    rcases Nat.lt_or_ge k states.length with h | h
+    · exact h
+    · rw [List.getElem?_eq_none h] at hk; cases hk
+  refine ⟨states.set k (step pg op).1, by simp [stepAt, hk], ?_, by simp, ?_⟩
+  · simp [hlt]
+  · intro j hj
+    simp [Ne.symm hj]
+
 /-! ### non-vacuity: concrete histories -/
 
 /-- append, append, index, merge, (stale) lookup, clean, lookup, lookups of an outside protein -/
@@ -415,5 +627,41 @@ example : (run (init : PG String) (demoReaders.take 7)).valid = false := by deci
 example : (step (run (init : PG String) (demoReaders.take 7)) (.read .collectScores)).2 = .err .invalidIndex := rfl
 example : (step (run (init : PG String) (demoReaders.take 7)) (.read .competition)).2 = .unit := rfl
 example : (step (run (init : PG String) demoReaders) (.read .reportChain)).2 = .unit := rfl
+
+/-- the scenario of a pipeline tool called repeatedly in one process: groups [[A],[B],[D]], rows looked up,
+    then append [C], merge A B, remove-empty, rows looked up again; a second collection -/
+def demoRowsOps : List (Op String) := [.append ["C"], .merge "A" "B", .removeEmpty]
+def demoRows : List (List String) := [["A"], ["B"], ["C"], ["A", "B"], ["A", "D"], ["Z", "Y"], ["C", "Z"]]
+
+example : callerAnswer .psmUpdate (ofList [["A"], ["B"], ["D"]]) demoRows =
+    .ok [.written "A", .written "B", .dropped, .dropped, .dropped, .dropped, .dropped] := by decide
+example : (run (ofList [["A"], ["B"], ["D"]]) demoRowsOps).groups = [["A", "B"], ["D"], ["C"]] := by decide
+example : callerAnswer .psmUpdate (run (ofList [["A"], ["B"], ["D"]]) demoRowsOps) demoRows =
+    .ok [.written "A", .dropped, .written "C", .written "A", .dropped, .dropped, .written "C"] := by decide
+example : callerAnswer .fragpipeQuant (run (ofList [["A"], ["B"], ["D"]]) demoRowsOps) demoRows =
+    .ok [.attached 0, .attached 0, .attached 2, .attached 0, .dropped, .dropped, .dropped] := by decide
+example : callerAnswer .annotate (run (ofList [["A"], ["B"], ["D"]]) demoRowsOps) [["B", "A"], ["A", "D"]] =
+    .ok [.leaders ["A"], .leaders ["A", "D"]] := by decide
+example : callerAnswer .annotate (run (ofList [["A"], ["B"], ["D"]]) demoRowsOps) [["B"], ["Z"]] =
+    .error .indexError := by decide
+example : callerAnswer .psmUpdate (run (ofList [["A"], ["B"], ["D"]]) (demoRowsOps.take 2)) demoRows =
+    .error .invalidIndex := by decide
+example : (run (ofList [["A"], ["B"], ["D"]]) demoRowsOps).valid = true := by decide
+example : Reachable (run (ofList [["A"], ["B"], ["D"]]) demoRowsOps) := reachable_run _ _ (.ofList _)
+/-- another history with the same final contents (hypotheses of `caller_answer_history_independent`) -/
+example : (run (init : PG String) [.append ["A", "B"], .append ["D"], .read .resultRows, .append ["C"], .createIndex]).groups
+    = (run (ofList [["A"], ["B"], ["D"]]) demoRowsOps).groups := by decide
+example : DisjointPos (run (ofList [["A"], ["B"], ["D"]]) demoRowsOps).groups := by
+  intro i j g₁ g₂ p h₁ h₂ hp₁ hp₂
+  have hg : (run (ofList [["A"], ["B"], ["D"]]) demoRowsOps).groups = [["A", "B"], ["D"], ["C"]] := by decide
+  rw [hg] at h₁ h₂
+  match i, j with
+  | 0, 0 | 1, 1 | 2, 2 => rfl
+  | 0, 1 | 0, 2 | 1, 0 | 1, 2 | 2, 0 | 2, 1 =>
+    simp at h₁ h₂; subst h₁ h₂; simp at hp₁ hp₂; rcases hp₁ with rfl | rfl <;> simp at hp₂
+  | i + 3, _ => simp at h₁
+  | 0, j + 3 | 1, j + 3 | 2, j + 3 => simp at h₂
+example : stepAt [ofList [["A"], ["B"]], ofList [["B"], ["A"]]] 1 (.rows .sageQuant [["A"]]) =
+    some ([ofList [["A"], ["B"]], ofList [["B"], ["A"]]], .rows [.attached 1]) := rfl
 
 end PgFdr.C20
